@@ -54,7 +54,50 @@ class CallOrderMonitor(backtest.Monitor):
             self.phase = "strategies"
 
 
-MONITORS = [LedgerMonitor, CallOrderMonitor]
+class ForeignReplayMonitor(backtest.Monitor):
+    """Marks strategies whose orders were changed (fill, status, liability) while a book delivered by a stream they are
+    not subscribed to was being processed - the mechanism of known finding F30 (same file replayed by another stream)."""
+
+    def __init__(self, run):
+        super().__init__(run)
+        self.cur_stream = None
+        self.seen = {}
+        self.touched = set()
+        self.streams_by_market = {}
+
+    def on_update_start(self, mid, j, mb):
+        self.cur_stream = mb.streaming_unique_id
+        self.streams_by_market.setdefault(mid, set()).add(mb.streaming_unique_id)
+
+    @property
+    def replayed(self):
+        """some market of the run was delivered by two or more streams (replayed with carried-over state: F30)"""
+        return any(len(v) >= 2 for v in self.streams_by_market.values())
+
+    def _scan(self, market):
+        for o in market.blotter:
+            sig = (len(o.simulated.matched), o.status.name if o.status else None, getattr(o.order_type, "liability", None), o.simulated.size_matched)
+            old = self.seen.get(o._vid)
+            self.seen[o._vid] = sig
+            if old is not None and old != sig and self.cur_stream is not None and self.cur_stream not in o.trade.strategy.stream_ids:
+                self.touched.add(o.trade.strategy.name)
+
+    def on_before_matching(self, market):
+        self._scan(market)
+
+    def on_after_matching(self, market):
+        self._scan(market)
+
+    def on_exec_after(self, pkg):
+        m = self.run.fw.markets.markets.get(pkg.market_id)
+        if m is not None:
+            self._scan(m)
+
+    def on_results(self, market, mb):
+        self._scan(market)
+
+
+MONITORS = [LedgerMonitor, CallOrderMonitor, ForeignReplayMonitor]
 
 
 def generate_live(rng):
@@ -164,6 +207,36 @@ def generate(rng, i, tier):
                     if u.get(key) and old in u[key]:
                         u[key][n] = u[key].pop(old)
     sc["cfg"]["isolation"] = True
+    # not sharing: B/C may subscribe to a subset of the markets, trade through a client of their own, or use listener
+    # arguments of their own (flumine then builds a separate stream for the same file)
+    share = rng.random()
+    if share < 0.2 and len(sc["markets"]) == 2:
+        for s in sc["strategies"][1:]:
+            s["markets"] = [rng.choice([0, 1])]
+            for mi, m in enumerate(sc["markets"]):
+                if mi not in s["markets"]:
+                    for u in m["updates"]:
+                        for key in ("acts", "oacts"):
+                            (u.get(key) or {}).pop(s["name"], None)
+        sc["not_sharing"] = "markets"
+    elif share < 0.4:
+        sc["clients"].append({"bpe": True, "limit": None, "commission": 0.02})
+        for s in sc["strategies"][1:]:
+            s["client"] = 1
+        sc["not_sharing"] = "client"
+    elif share < 0.5:
+        for s in sc["strategies"][1:]:
+            s["listener_kwargs"] = {"inplay": rng.choice([True, False])} if rng.random() < 0.5 else {"seconds_to_start": 86400.0}
+        sc["not_sharing"] = "stream"
+        unclosed = [m for m in sc["markets"] if m["updates"][-1]["st"] != "CLOSED"]
+        if unclosed and rng.random() < 0.8:
+            # recorded files normally end with the closing update; the remaining fifth keeps truncated files
+            from .. import marketgen
+
+            for m in unclosed:
+                m["updates"].append(marketgen._closing_update(rng, m, m["updates"][-1], m["updates"][-1]["pt"] + 1000, dict(marketgen.DEFAULT_KNOBS)))
+        elif unclosed:
+            sc["not_sharing"] = "stream-on-truncated-file"
     sports = len(sc["markets"]) == 1 and rng.random() < 0.3
     if sports:
         # recorded race data replayed by flumine's SimulatedSportsDataMiddleware (one market: the middleware holds one generator)
@@ -229,6 +302,8 @@ def execute(scenario):
         if res.discarded and not out.discarded:
             out.discarded = res.discarded
 
+    if scenario.get("not_sharing"):
+        out.probes["c13.not_sharing.%s" % scenario["not_sharing"]] += 1
     if "A" in names:
         variants = [["A"]]
         if "B" in names:
@@ -246,7 +321,10 @@ def execute(scenario):
                 base = la
             elif la != base:
                 k = next((i for i, (x, y) in enumerate(zip(base, la)) if x != y), min(len(base), len(la)))
-                out.violate(ID, "C13.isolation", "ledger-of-A-differs:" + "+".join(vs), alone=str(base[k] if k < len(base) else None)[:500], together=str(la[k] if k < len(la) else None)[:500], orders_alone=len(base), orders_together=len(la))
+                f30 = str(scenario.get("not_sharing", "")).startswith("stream") and run.monitors[2].replayed
+                if f30 and "A" in run.monitors[2].touched:
+                    out.probes["c13.f30.order_of_A_changed_during_another_streams_replay"] += 1
+                out.violate(ID, "C13.isolation", "ledger-of-A-differs:" + ("separate-stream-on-the-same-file:" if f30 else "") + "+".join(vs), alone=str(base[k] if k < len(base) else None)[:500], together=str(la[k] if k < len(la) else None)[:500], orders_alone=len(base), orders_together=len(la))
             if len(vs) > 1:
                 sel_a = set((r[1], r[2]) for r in la)
                 for other in vs:
